@@ -402,16 +402,11 @@ func (m *Manager) writeSnapshot(w io.Writer) error {
 			return ids[i].Bucket < ids[j].Bucket
 		})
 		for _, id := range ids {
-			meta := version.ValueLogs[id]
-			metaCopy := meta
-			if meta.Valid {
-				if err := writeEdit(w, Edit{Type: EditUpdateValueLog, ValueLog: &metaCopy}); err != nil {
-					return err
-				}
-			} else {
-				if err := writeEdit(w, Edit{Type: EditDeleteValueLog, ValueLog: &metaCopy}); err != nil {
-					return err
-				}
+			// An update edit carries offset and validity, so it restores valid and
+			// invalidated segments exactly as they are held in memory.
+			metaCopy := version.ValueLogs[id]
+			if err := writeEdit(w, Edit{Type: EditUpdateValueLog, ValueLog: &metaCopy}); err != nil {
+				return err
 			}
 		}
 	}
